@@ -14,7 +14,7 @@ def build():
 def run(tier, deadline):
     t0 = time.time(); build()
     env = dict(os.environ, CAT_LIB=vbuild.build("prod"))
-    sets = [("%ndslh5.x", 5), ("%n[]^s", 5)] if tier == "quick" else [("%ndslh5.x", 7), ("%n[]^sd", 7), ("%n*c-Ljztd", 6)]
+    sets = [("%ndslh5.x", 5), ("%n[]^s", 5), ("%nmZqd", 5)] if tier == "quick" else [("%ndslh5.x", 7), ("%n[]^sd", 7), ("%n*c-Ljztd", 6), ("%nmZqIs'", 6)]
     jobs = []
     for alpha, L in sets:
         nsh = 16 if len(alpha) ** L > 50000 else 2
